@@ -126,12 +126,19 @@ PLAN = {
         "mc": [{"name": "watchdog-design", "tla": "Watchdog.tla", "cfg": "Watchdog.cfg", "workers": 4},
                {"name": "watchdog-as-found(exits after a ping)", "tla": "Watchdog.tla", "cfg": "Watchdog_asfound.cfg", "workers": 4, "expect_violation": "NoSpuriousTimeout"},
                {"name": "watchdog-reordered(shutdown before drop)", "tla": "Watchdog.tla", "cfg": "Watchdog_reordered.cfg", "workers": 4, "expect_violation": "CutNeverComplete"},
-               {"name": "watchdog-inductive-invariant(unbounded)", "apalache": True, "tla": "WatchdogInd.tla", "inv": "IndInv", "indinit": "IndInit"}],
+               {"name": "watchdog-inductive-invariant(unbounded)", "apalache": True, "tla": "WatchdogInd.tla", "inv": "IndInv", "indinit": "IndInit"},
+               {"name": "send-loop-stays-inside-the-connection-lifecycle-contract", "tla": "SendImpl.tla", "cfg": "SendImpl.cfg", "workers": 4},
+               {"name": "send-loop-without-following", "tla": "SendImpl.tla", "cfg": "SendImpl_nofollow.cfg", "workers": 4},
+               {"name": "send-loop-keeping-the-previous-response(design alternative)", "tla": "SendImpl.tla", "cfg": "SendImpl_keepprev.cfg", "workers": 4,
+                "expect_violation": "InsideContract"}],
         "families": [{"gen": ("tlc", {"name": "watchdog-schedules", "tla": "MC_WatchdogReplay.tla", "cfg": "MC_WatchdogReplay.cfg", "cfg_thorough": "MC_WatchdogReplay_thorough.cfg", "workers": 4}),
                       "runner": "wdsched", "trace": "Trace_Watchdog", "threads": 12, "budget_ms": 60000},
                      fam("rt", runner="rt", trace="Trace_Timeouts", threads=12, budget_ms=60000),
-                     fam("rt_release", runner="rt", trace="Trace_Timeouts", threads=1, budget_ms=60000)],
-        "rule": "Watchdog.tla (reader / watchdog thread / peer / clock, one action per critical section) checked exhaustively by TLC for every interleaving and every read sequence after end-of-body, with the two design alternatives shown to violate the invariants; real loopback exchanges: every phase as the stall point (upload not read, before/inside the head, between head and body, inside a length / close / chunked body, chunk-size line, CONNECT reply) x silent stall / octet drip faster than the read timeout x overall timeout / read timeout alone; redirect chains whose hops together exceed T; prompt responses read on after end-of-body; thread and socket counts after drop",
+                     fam("rt_release", runner="rt", trace="Trace_Timeouts", threads=1, budget_ms=60000),
+                     # connection lifecycle (ConnLifecycle.tla): sockets of earlier hops and of failed calls are released
+                     {"gen": ("tlc", {"name": "redirect-chains", "tla": "MC_Redirect.tla", "cfg": "MC_Redirect.cfg", "cfg_thorough": "MC_Redirect_thorough.cfg", "workers": 8}),
+                      "runner": "loop", "trace": "Trace_SendLoop"}],
+        "rule": "Watchdog.tla (reader / watchdog thread / peer / clock, one action per critical section) checked exhaustively by TLC for every interleaving and every read sequence after end-of-body, with the two design alternatives shown to violate the invariants; real loopback exchanges: every phase as the stall point (upload not read, before/inside the head, between head and body, inside a length / close / chunked body, chunk-size line, CONNECT reply) x silent stall / octet drip faster than the read timeout x overall timeout / read timeout alone; redirect chains whose hops together exceed T; prompt responses read on after end-of-body; thread and socket counts after drop; SendImpl.tla (the send loop and the ownership of its stream, every failure exit) checked to stay inside ConnLifecycle.tla, and the transport-level token sequence (dial, write, read, drop, return) of every redirect-chain scenario judged against that contract: no connection outlives its hop, none is left after an error, the response's connection goes with the response",
         "assumptions": ["wall-clock checks use a margin of 700 ms against stalls of 2.5 s; the interleaving claims are decided in the model", "the connect phase is outside (the overall timeout applies once the connection is established)"],
         "replay_runner": "rt", "replay_trace": "Trace_Timeouts",
     },
